@@ -3,6 +3,7 @@ C19: regular stacks of lines (n copies of one baseline shape, leading Δ, common
 length) and the region-level averages on them.
 -/
 import PagexmlModel.Lemmas.C19Sort
+import PagexmlModel.Lemmas.C19Consts
 import Mathlib.Tactic.Ring
 
 namespace Pagexml.C19
@@ -41,27 +42,27 @@ theorem interp_length_shift (mdt : MulDivTrunc) (ps : List Pt) (step c : Int) :
 
 /-- the distance between consecutive lines of a stack whose shape is sampled at least once -/
 theorem lineDist_stack (mdt : MulDivTrunc) (shape : List Pt) (coordsOf : Nat → List Pt) (m sp : Nat)
-    (Δ : Int) (hΔ : 0 ≤ Δ) (hk : interpBaselinePure mdt shape 50 ≠ []) (i : Nat) :
-    lineDist mdt (stackLine shape coordsOf m sp Δ i) (stackLine shape coordsOf m sp Δ (i + 1)) 50 =
-      .ok (List.replicate (interpBaselinePure mdt shape 50).length Δ) := by
+    (Δ : Int) (hΔ : 0 ≤ Δ) (hk : interpBaselinePure mdt shape lineStep ≠ []) (i : Nat) :
+    lineDist mdt (stackLine shape coordsOf m sp Δ i) (stackLine shape coordsOf m sp Δ (i + 1)) lineStep =
+      .ok (List.replicate (interpBaselinePure mdt shape lineStep).length Δ) := by
   simp only [lineDist, stackLine]
   have e : shiftDown (((i + 1 : Nat) : Int) * Δ) shape = shiftDown Δ (shiftDown ((i : Int) * Δ) shape) := by
     rw [shiftDown_shiftDown]
     congr 1
     rw [Int.natCast_add, Int.add_mul]; simp
-  rw [e, baselineDistances_shift mdt _ 50 Δ hΔ (by decide), interp_length_shift]
+  rw [e, baselineDistances_shift mdt _ lineStep Δ hΔ consts_line_step_nonzero, interp_length_shift]
   intro h
   apply hk
-  have := interp_length_shift mdt shape 50 ((i : Int) * Δ)
+  have := interp_length_shift mdt shape lineStep ((i : Int) * Δ)
   rw [h] at this
   exact List.eq_nil_of_length_eq_zero this.symm
 
 /-- the same for a stack too narrow to be sampled: the single fallback distance is `Δ` when some
     segment of the shape is not vertical and the shape lies at non-negative y -/
 theorem lineDist_stack_narrow (mdt : MulDivTrunc) (shape : List Pt) (coordsOf : Nat → List Pt) (m sp : Nat)
-    (Δ : Int) (hΔ : 0 ≤ Δ) (hk : interpBaselinePure mdt shape 50 = [])
+    (Δ : Int) (hΔ : 0 ≤ Δ) (hk : interpBaselinePure mdt shape lineStep = [])
     (hy : ∀ p ∈ shape, 0 ≤ p.2) (hnv : hasNonVertical shape = true) (i : Nat) :
-    lineDist mdt (stackLine shape coordsOf m sp Δ i) (stackLine shape coordsOf m sp Δ (i + 1)) 50 =
+    lineDist mdt (stackLine shape coordsOf m sp Δ i) (stackLine shape coordsOf m sp Δ (i + 1)) lineStep =
       .ok (List.replicate 1 Δ) := by
   simp only [lineDist, stackLine]
   have e : shiftDown (((i + 1 : Nat) : Int) * Δ) shape = shiftDown Δ (shiftDown ((i : Int) * Δ) shape) := by
@@ -70,8 +71,8 @@ theorem lineDist_stack_narrow (mdt : MulDivTrunc) (shape : List Pt) (coordsOf : 
     rw [Int.natCast_add, Int.add_mul]; simp
   have hiΔ : 0 ≤ (i : Int) * Δ := Int.mul_nonneg (by omega) hΔ
   rw [e]
-  refine baselineDistances_shift_fallback mdt _ 50 Δ hΔ (by decide) ?_ ?_ ?_
-  · have := interp_length_shift mdt shape 50 ((i : Int) * Δ)
+  refine baselineDistances_shift_fallback mdt _ lineStep Δ hΔ consts_line_step_nonzero ?_ ?_ ?_
+  · have := interp_length_shift mdt shape lineStep ((i : Int) * Δ)
     rw [hk] at this
     exact List.eq_nil_of_length_eq_zero this
   · intro p hp
@@ -84,7 +85,7 @@ theorem lineDist_stack_narrow (mdt : MulDivTrunc) (shape : List Pt) (coordsOf : 
 /-- all line distances of a stack, given the distance between consecutive lines -/
 theorem lineDistsIn_stack (mdt : MulDivTrunc) (shape : List Pt) (coordsOf : Nat → List Pt) (m sp : Nat)
     (Δ : Int) (ds : List Int)
-    (hd : ∀ i, lineDist mdt (stackLine shape coordsOf m sp Δ i) (stackLine shape coordsOf m sp Δ (i + 1)) 50 = .ok ds)
+    (hd : ∀ i, lineDist mdt (stackLine shape coordsOf m sp Δ i) (stackLine shape coordsOf m sp Δ (i + 1)) lineStep = .ok ds)
     (i n : Nat) :
     lineDistsIn mdt (stackFrom shape coordsOf m sp Δ i (n + 1)) none = .ok (List.replicate n ds) := by
   induction n generalizing i with
@@ -101,7 +102,7 @@ theorem innerRegions_leaf (rc : List Pt) (sid cid : Option Int) (lines : List Li
 
 theorem regionLineDistances_stack (mdt : MulDivTrunc) (rc : List Pt) (sid cid : Option Int) (shape : List Pt)
     (coordsOf : Nat → List Pt) (m sp : Nat) (Δ : Int) (ds : List Int)
-    (hd : ∀ i, lineDist mdt (stackLine shape coordsOf m sp Δ i) (stackLine shape coordsOf m sp Δ (i + 1)) 50 = .ok ds)
+    (hd : ∀ i, lineDist mdt (stackLine shape coordsOf m sp Δ i) (stackLine shape coordsOf m sp Δ (i + 1)) lineStep = .ok ds)
     (n : Nat) :
     regionLineDistances mdt (stackRegion rc sid cid shape coordsOf m sp Δ (n + 1)) = .ok (List.replicate n ds) := by
   unfold regionLineDistances stackRegion
